@@ -25,6 +25,10 @@ pub struct GenCfg {
     pub dots: bool,
     /// avoid triggers of listed known findings
     pub avoid: Vec<&'static str>,
+    /// namespace ops only address the root directory
+    pub root_only: bool,
+    /// name pool of many different lengths (1..70 units) instead of the standard pool
+    pub varied_lengths: bool,
 }
 
 impl Default for GenCfg {
@@ -44,6 +48,8 @@ impl Default for GenCfg {
             set_times: true,
             dots: true,
             avoid: Vec::new(),
+            root_only: false,
+            varied_lengths: false,
         }
     }
 }
@@ -89,6 +95,25 @@ impl RandomSource {
             }
             pool.push(s);
         }
+        if cfg.varied_lengths {
+            pool.clear();
+            let k = 8 + rng.usize_below(10);
+            for i in 0..k {
+                let len = match rng.below(4) {
+                    0 => 1 + rng.usize_below(8),
+                    1 => 9 + rng.usize_below(18),
+                    2 => 27 + rng.usize_below(40),
+                    _ => *rng.pick(&[12usize, 13, 14, 25, 26, 27, 39, 40, 52, 65]),
+                };
+                let mut s2 = String::new();
+                for j in 0..len {
+                    s2.push((b'a' + ((i * 7 + j) % 26) as u8) as char);
+                }
+                if !pool.contains(&s2) {
+                    pool.push(s2);
+                }
+            }
+        }
         RandomSource { rng, cfg, n: 0, pool }
     }
 
@@ -129,7 +154,7 @@ impl RandomSource {
 
     /// choose a directory reference and a target directory, build a path to `target_dir` + final name
     fn pick_path(&mut self, m: &Model, prefer_existing: bool) -> (DirRef, String) {
-        let dirs = Self::dirs_of(m);
+        let dirs = if self.cfg.root_only { vec![0] } else { Self::dirs_of(m) };
         let target = dirs[self.rng.usize_below(dirs.len())];
         // possible starting points: root or a Dir handle that is an ancestor of the target
         let mut starts: Vec<(DirRef, usize)> = vec![(DirRef::Root, 0)];
